@@ -1275,6 +1275,10 @@ class mulgrid(object):
 
     def read_header(self, geo):
         """Reads grid header info from file geo"""
+        # optional values left blank in the file are unset, rather than kept
+        # from whatever the object held before reading:
+        self.gdcx, self.gdcy, self.cntype = None, None, None
+        self._block_order_int = None
         geo.read_value_line(self.__dict__, 'header')
         self.convention = self._convention
         self.atmosphere_type = self._atmosphere_type
@@ -1285,7 +1289,9 @@ class mulgrid(object):
         block_orders = {0: 'layer_column', 1: 'dmplex'}
         if self._block_order_int in block_orders:
             self._block_order = block_orders[self._block_order_int]
-        elif self._block_order_int is not None:
+        elif self._block_order_int is None:
+            self._block_order = None
+        else:
             raise Exception('Unrecognised mulgrid block order: %d')
 
     def read_nodes(self, geo):
